@@ -45,7 +45,8 @@ Record switches := mkSwitches {
   sw_guard_setvar : bool;              (* set_variable has the if_async_we_cant guard *)
   sw_guard_remove_flow : bool;         (* remove_flow has the guard *)
   sw_guard_switch_default : bool;      (* switch_to_default_flow is ignored while async *)
-  sw_guard_load : bool                 (* load_state has the guard *)
+  sw_guard_load : bool;                (* load_state has the guard *)
+  sw_counter_dec_first : bool          (* continue_internal decrements the nesting counter before the error-delivery block *)
 }.
 
 (* i32 addition as the seed computations of control_logic.rs / story/mod.rs do it *)
